@@ -1,5 +1,6 @@
 import SeqVerif.Model.PatternTop
 import SeqVerif.Model.PatternRange
+import SeqVerif.Model.PatternProvider
 import SeqVerif.Extracted.C13
 /-!
 # C13 - token matching equals glob / range semantics, with or without dictionary narrowing
@@ -34,6 +35,19 @@ theorem c13_prefFunc (p : List Nat) (hp : p ≠ []) (j : Nat) (hj : j < p.length
   simp only [List.length_take] at this
   omega
 
+/-- **KMP never indexes out of range.**  For every non-empty fragment and every text, all reads `val[cur]`,
+`prefFunc[cur-1]` and the write `prefFunc[i+1]` performed by `calcPrefFunc` and `findSubstring` are in range (the
+`*OK` functions replay the loops and record the runtime's index checks).  The empty fragment is the only panic. -/
+theorem c13_kmp_in_range (p : List Nat) (hp : p ≠ []) :
+    calcLoopOK p p.tail 0 0 (List.replicate p.length 0) = true ∧ ∀ s, findLoopOK p (calcPrefFunc p) s 0 = true :=
+  kmp_in_range p hp
+
+/-- the slice `val[len(prefix) : len(val)-len(suffix)]` of `checkMiddle` is taken only behind a guard that keeps it
+in range -/
+theorem c13_middle_slice_in_range (s : Wild) (val : Bytes)
+    (hguard : ¬ val.length < s.middleLen + s.pre.length + s.suf.length) :
+    s.pre.length ≤ val.length - s.suf.length ∧ val.length - s.suf.length ≤ val.length := by omega
+
 /-! ## glob -/
 
 /-- **C13 (glob).**  For every term list the parsers can produce (`WF`: non-empty, no two adjacent text terms,
@@ -55,6 +69,13 @@ theorem c13_search_eq_glob (pf : Bytes → Option Int) (maxKey : Int) (terms : L
     search pf maxKey (.literal terms) ⟨base, dict, false⟩ = some (globTids terms base dict) :=
   search_eq_globTids pf maxKey terms hwf base dict
 
+/-- **C13 (active fraction).**  `TokenList.FindPattern` - unordered provider over the positions of the field's
+tokens, then `inverseTIDs` - returns the real TIDs of exactly the field's tokens that match the glob. -/
+theorem c13_active_eq_glob (pf : Bytes → Option Int) (maxKey : Int) (terms : List Term) (hwf : WF terms)
+    (entries : List (Nat × Bytes)) :
+    activeFind pf maxKey (.literal terms) entries = some ((entries.filter fun e => globB terms e.2).map (·.1)) :=
+  activeFind_eq_glob pf maxKey terms hwf entries
+
 /-! ## narrowing -/
 
 /-- **C13 (narrowing).**  For a strictly sorted (hence duplicate-free) dictionary, `Search` over an ordered provider
@@ -71,6 +92,15 @@ theorem c13_ordered_search_eq_glob (pf : Bytes → Option Int) (maxKey : Int) (t
     (base : Nat) (dict : List Bytes) (hs : dict.Pairwise bLt) :
     search pf maxKey (.literal terms) ⟨base, dict, true⟩ = some (globTids terms base dict) := by
   rw [narrow_eq_scan pf maxKey _ base dict hs]; exact search_eq_globTids pf maxKey terms hwf base dict
+
+/-- **`token.Provider` is the flat dictionary.**  Over entries laid out consecutively from TID `base` on non-empty
+runs, any sequence of `GetToken` calls (block lookup by `sort.Search` on the last TIDs, with the cached-block fast
+path) returns `blocks.flatten[tid - base]` - so the real ordered provider is the abstract provider
+`⟨base, blocks.flatten, true⟩` of the theorems above. -/
+theorem c13_provider_reads_flat (base : Nat) (blocks : List (List Bytes)) (hne : ∀ b ∈ blocks, b ≠ [])
+    (tids : List Nat) (hr : ∀ t ∈ tids, base ≤ t ∧ t < base + blocks.flatten.length) :
+    providerGetTokens (mkEntries base blocks) blocks none tids = tids.map fun t => blocks.flatten.getD (t - base) [] :=
+  providerGetTokens_eq base blocks hne tids hr none (fun _ h => by simp at h)
 
 /-! ## token-table pre-selection -/
 
@@ -226,6 +256,48 @@ theorem c13_x_tableCut : SV.Extracted.C13.tableCut =
 
 theorem c13_x_selectEntries : SV.Extracted.C13.selectEntries =
     ["data, ok := t[field]", "if !ok", "return nil", "if hint == \"\"", "return data.Entries", "hintLen := len(hint)", "if hint < cut(data.MinVal, hintLen)", "return data.Entries[:0]", "r := 1 + sort.Search(len(data.Entries)-1, func(i int) bool { return hint < cut(data.Entries[i].MaxVal, hintLen) })", "return hint < cut(data.Entries[i].MaxVal, hintLen)", "l := sort.Search(r, func(i int) bool { return hint <= cut(data.Entries[i].MaxVal, hintLen) })", "return hint <= cut(data.Entries[i].MaxVal, hintLen)", "return data.Entries[l:r]"] := rfl
+
+theorem c13_x_providerFirstTID : SV.Extracted.C13.providerFirstTID =
+    ["return tp.entries[0].StartTID"] := rfl
+
+theorem c13_x_providerLastTID : SV.Extracted.C13.providerLastTID =
+    ["return tp.entries[len(tp.entries)-1].getLastTID()"] := rfl
+
+theorem c13_x_providerOrdered : SV.Extracted.C13.providerOrdered =
+    ["return true"] := rfl
+
+theorem c13_x_providerFindBlock : SV.Extracted.C13.providerFindBlock =
+    ["if tp.curBlockIndex >= 0 && tp.entries[tp.curBlockIndex].checkTIDInBlock(tid)", "return tp.curBlockIndex", "return sort.Search(len(tp.entries), func(blockIndex int) bool { return tid <= tp.entries[blockIndex].getLastTID() })", "return tid <= tp.entries[blockIndex].getLastTID()"] := rfl
+
+theorem c13_x_providerGetToken : SV.Extracted.C13.providerGetToken =
+    ["blockIndex := tp.findBlock(tid)", "if blockIndex != tp.curBlockIndex", "tp.curBlockIndex = blockIndex", "tp.curTokensBlock = tp.loader.Load(tp.entries[blockIndex])", "return tp.curTokensBlock.GetValByTID(tid)"] := rfl
+
+theorem c13_x_entryGetLastTID : SV.Extracted.C13.entryGetLastTID =
+    ["return t.StartTID + t.ValCount - 1"] := rfl
+
+theorem c13_x_entryCheckTIDInBlock : SV.Extracted.C13.entryCheckTIDInBlock =
+    ["if tid < t.StartTID", "return false", "if tid > t.getLastTID()", "return false", "return true"] := rfl
+
+theorem c13_x_entryGetIndexInTokensBlock : SV.Extracted.C13.entryGetIndexInTokensBlock =
+    ["return t.StartIndex + tid - t.StartTID"] := rfl
+
+theorem c13_x_activeGetToken : SV.Extracted.C13.activeGetToken =
+    ["id := tp.inverseIndex[tid-1]", "return tp.tidToVal[id]"] := rfl
+
+theorem c13_x_activeFirstTID : SV.Extracted.C13.activeFirstTID =
+    ["return 1"] := rfl
+
+theorem c13_x_activeLastTID : SV.Extracted.C13.activeLastTID =
+    ["return uint32(len(tp.inverseIndex))"] := rfl
+
+theorem c13_x_activeOrdered : SV.Extracted.C13.activeOrdered =
+    ["return false"] := rfl
+
+theorem c13_x_activeInverseTIDs : SV.Extracted.C13.activeInverseTIDs =
+    ["range i, tid := tids", "tids[i] = tp.inverseIndex[tid-1]", "return tids"] := rfl
+
+theorem c13_x_activeFindPattern : SV.Extracted.C13.activeFindPattern =
+    ["field := parser.GetField(t)", "tp := tl.getTokenProvider(field)", "tids, err := pattern.Search(ctx, t, tp)", "if err != nil", "return nil, fmt.Errorf(\"search error: %s field: %s, query: %s\", err, field, parser.GetHint(t))", "return tp.inverseTIDs(tids), nil"] := rfl
 
 theorem c13_x_binSearchInRange : SV.Extracted.C13.binSearchInRange =
     ["n := to - from + 1", "i := sort.Search(n, func(i int) bool { return fn(from + i) })", "return fn(from + i)", "return from + i"] := rfl
